@@ -506,6 +506,12 @@ def plan(tier):
             t.append(tk)
     for lo in range(0, 65536, 2048):
         t.append({'kind': 'sym4', 'lo': lo, 'hi': lo + 2048})
+    wide = [(9, 'and2'), (9, 'xor3'), (10, 'and2'), (10, 'xor3'), (12, 'and2')]
+    if tier == 'thorough':
+        wide += [(11, 'and2'), (11, 'xor3'), (12, 'xor3'), (13, 'and2')]
+    for n, shape in wide:
+        for first in WIDE_POS(n):
+            t.append({'kind': 'wideif', 'n': n, 'shape': shape, 'first': first})
     for n, m in [(1, 1), (2, 1), (1, 2)] + ([(2, 2), (3, 1)] if tier == 'thorough' else []):
         total = (3 ** (1 << n)) ** m
         step = 81
@@ -516,7 +522,7 @@ def plan(tier):
 
 def describe(tier):
     return {
-        'rule': 'funcs: every function table for the listed (n,m) in 7 representations (TruthTable from bools / strings, PyFunction from a '
+        'rule': 'wideif: functions of 9..12 (13) inputs depending on 2-3 of them, every ordered choice of positions from {0,1,2,7,8,9,n-2,n-1} with one >= 8: dependency queries incl. the order of the answer; funcs: every function table for the listed (n,m) in 7 representations (TruthTable from bools / strings, PyFunction from a '
         'list callable with and without output_size and from a 0/1-integer-valued callable, PyFunction.from_positional, Circuit as mux tree); circuits: every circuit of '
         'F(n,2,FULL) with outputs (last gate, first gate, first input) as its own function; identity: callables returning their argument list; sym4: all 65536 four-input functions for the symmetry/constancy/monotonicity queries; rebuild: table queried, last gate rebuilt under the same label with every other type, queried again; every '
         'protocol query with every index argument, both inverse values, every non-empty output subset for find_negations; answers '
@@ -536,6 +542,60 @@ def probe():
     return [[k, [list(r) for r in f.get_truth_table()], f.is_symmetric()] for k, f in reps.items()]
 
 
+WIDE_POS = lambda n: sorted({0, 1, 2, 7, 8, 9, n - 2, n - 1} & set(range(n)))  # noqa: E731
+
+
+def check_wide_interface(acc, n, shape, first=None):
+    """Functions of n >= 9 inputs that depend on two or three of them (every ordered choice of positions from a
+    stated set around 0, 8 and n-1): dependency queries of the three representations against the definition,
+    order of the returned positions included."""
+    from cirbo.core.python_function import PyFunction
+    from cirbo.core.truth_table import TruthTable
+
+    P = WIDE_POS(n)
+    ar = 2 if shape == 'and2' else 3
+    t = 'AND' if shape == 'and2' else 'XOR'
+    for pos in itertools.permutations(P, ar):
+        if max(pos) < 8 or (first is not None and pos[0] != first):
+            continue
+        gates = ((t, tuple(pos)),)
+        outs = (n,)
+        net = space.spec_net(n, gates, outs)
+        tab = net.out_tables()[0]
+        rows = rows_of(tab, n)
+        want = sorted(pos)
+        acc.states += 1
+        case = {'family': 'wide-interface', 'n': n, 'gate': [t, list(pos)]}
+
+        def lookup(args, rows=rows):
+            j = 0
+            for b in args:
+                j = (j << 1) | int(bool(b))
+            return [rows[j]]
+
+        reps = {'Circuit': space.build(n, gates, outs), 'TruthTable': TruthTable([list(rows)])}
+        if n <= 10 and ar == 2:
+            reps['PyFunction'] = PyFunction(lookup, input_size=n)
+        answers = {}
+        for name, f in reps.items():
+            acc.traces += 1
+            acc.transitions += 1 + n
+            try:
+                got = f.get_significant_inputs_of(0)
+                dep = [f.is_dependent_on_input_at(0, i) for i in range(n)]
+            except Exception as e:  # noqa: BLE001
+                acc.violation(f'{name}.get_significant_inputs_of/raises-{type(e).__name__}', case, repr(e)[:200])
+                continue
+            answers[name] = list(got)
+            if list(got) != want:
+                acc.violation(f'{name}.get_significant_inputs_of/wrong-answer', case, f'got {list(got)} expected {want}')
+            if [bool(d) for d in dep] != [i in pos for i in range(n)]:
+                acc.violation(f'{name}.is_dependent_on_input_at/wrong-answer', case, f'{dep}')
+        if len({repr(v) for v in answers.values()}) > 1:
+            acc.violation('representations-disagree', case, str(answers), {'query': 'get_significant_inputs_of'})
+        acc.outcome('fn', ('wide', n, shape))
+
+
 def run_task(task, acc):
     k = task['kind']
     if k == 'helpers':
@@ -548,6 +608,8 @@ def run_task(task, acc):
         return check_models(acc, task['n'], task['m'], task['lo'], task['hi'])
     if k == 'sym4':
         return check_sym4(acc, task['lo'], task['hi'])
+    if k == 'wideif':
+        return check_wide_interface(acc, task['n'], task['shape'], task.get('first'))
     if k == 'funcs':
         n, m = task['n'], task['m']
         per = 1 << (1 << n)
@@ -588,6 +650,8 @@ def replay(case, acc):
         return check_models(acc, n, m, i, i + 1)
     if case.get('family') == 'identity-callable':
         return check_identity_callable(acc)
+    if case.get('family') == 'wide-interface':
+        return check_wide_interface(acc, case['n'], 'and2' if len(case['gate'][1]) == 2 else 'xor3')
     if case.get('family') == 'sym4':
         t = refmodel.tt_from_rows([ch == '1' for ch in case['tables'][0]])
         return check_sym4(acc, t, t + 1)
